@@ -426,13 +426,31 @@ pub fn check(spec: &CheckSpec, tier: Tier) -> i32 {
             }
             Err(_) => false,
         };
-        if !confirmed {
-            eprintln!(
-                "HARNESS-ERROR violation at run={i} did not replay in a fresh process ({})",
-                path.display()
-            );
-            return 2;
-        }
+        let (path, fv) = if confirmed {
+            (path, fv)
+        } else {
+            // The minimised trace is the most fragile witness.  A change whose
+            // effect depends on memory the code must not read (an out-of-bounds
+            // load in generated code, a stale pointer) fails differently from
+            // process to process: fall back to the whole run, replayed by its
+            // seed in fresh processes, and accept any clause of the same
+            // property that is not a known finding.
+            match confirm_by_seed(spec, tier, seed, i, rs, &v, &known, &exe) {
+                Some(r) => {
+                    println!(
+                        "note: the minimised trace did not replay in a fresh process; the replay file re-executes the whole run by its seed"
+                    );
+                    r
+                }
+                None => {
+                    eprintln!(
+                        "HARNESS-ERROR violation at run={i} did not replay in a fresh process ({})",
+                        path.display()
+                    );
+                    return 2;
+                }
+            }
+        };
         println!("VIOLATION property={} replay={}", fv.property, path.display());
         println!("  clause={} detail={}", fv.clause, fv.detail);
         violations = 1;
@@ -986,6 +1004,91 @@ pub fn minimise_child(spec: &CheckSpec, tier: Tier, dir: &str) -> i32 {
     }
     // a hung candidate leaves a stuck thread behind: leave without joining it
     std::process::exit(0);
+}
+
+/// Fallback confirmation of a violation whose minimised trace does not replay
+/// in a fresh process: the whole run, by its seed, in up to three fresh
+/// processes; the clause may be any clause of the same property that is not a
+/// known finding (the file records the clause the fresh process saw).
+#[allow(clippy::too_many_arguments)]
+fn confirm_by_seed(
+    spec: &CheckSpec,
+    tier: Tier,
+    seed: u64,
+    index: u64,
+    rs: u64,
+    v: &Violation,
+    known: &[KnownFinding],
+    exe: &std::path::Path,
+) -> Option<(std::path::PathBuf, Violation)> {
+    let rdir = verif_root().join("replays");
+    let _ = std::fs::create_dir_all(&rdir);
+    let path = rdir.join(format!("{}-{}-run-{}.json", spec.prop, seed, index));
+    let mut clause = v.clause.clone();
+    let mut detail = v.detail.clone();
+    for _attempt in 0..3 {
+        let j = json!({
+            "property": spec.prop,
+            "clause": clause,
+            "detail": detail,
+            "engine": spec.engine,
+            "tier": tier.name(),
+            "verif_seed": seed,
+            "run_index": index,
+            "run_seed": rs,
+            "mode": "seed",
+            "note": "the minimised choice trace of this violation did not replay in a fresh process (the failure depends on process state the code must not depend on); this file re-executes the whole run",
+            "replay_cmd": format!("/verif/run.sh replay {}", path.display()),
+        });
+        std::fs::write(&path, serde_json::to_string_pretty(&j).unwrap()).ok()?;
+        let out = std::process::Command::new(exe)
+            .arg("replay")
+            .arg(&path)
+            .env("VERIF_CHILD", "1")
+            .output()
+            .ok()?;
+        let so = String::from_utf8_lossy(&out.stdout).to_string();
+        if let Some(l) = so.lines().find(|l| l.starts_with("REPRODUCED")) {
+            let d = l.splitn(2, " : ").nth(1).unwrap_or(&detail).to_string();
+            return Some((
+                path,
+                Violation {
+                    property: v.property,
+                    clause,
+                    detail: d,
+                },
+            ));
+        }
+        // another clause of the same property?
+        let other = so
+            .lines()
+            .find(|l| l.starts_with("NOT-REPRODUCED"))
+            .and_then(|l| l.split("other violations: [").nth(1))
+            .map(|t| {
+                t.trim_end_matches(|c| c == ')' || c == ']')
+                    .split(", ")
+                    .map(|c| c.trim_matches('"').to_string())
+                    .filter(|c| !c.is_empty())
+                    .collect::<Vec<_>>()
+            })
+            .unwrap_or_default();
+        let next = other.into_iter().find(|c| {
+            !is_known(
+                known,
+                &Violation {
+                    property: v.property,
+                    clause: c.clone(),
+                    detail: String::new(),
+                },
+            )
+        });
+        if let Some(c) = next {
+            clause = c;
+            detail = "(clause observed by the fresh replay process)".to_string();
+        }
+    }
+    let _ = std::fs::remove_file(&path);
+    None
 }
 
 fn write_replay(
